@@ -424,6 +424,23 @@ def install(w):
     w.reg(tuple, lambda ex, st, args, kw, line: iter([(st, tuple(args[0]) if args else ())]), "builtins.tuple")
     w.reg(dict, lambda ex, st, args, kw, line: iter([(st, dict(*args, **kw))]), "builtins.dict")
     w.reg(typing.cast, lambda ex, st, args, kw, line: iter([(st, args[1])]), "typing.cast")
+
+    def h_copy(ex, st, args, kw, line):
+        import copy as _copy
+
+        x = args[0]
+        if isinstance(x, dict):
+            yield st, dict(x)
+        elif isinstance(x, list):
+            yield st, list(x)
+        elif isinstance(x, (int, str, tuple, frozenset, type(None))) or is_sym(x):
+            yield st, x
+        else:
+            raise Unsupported(f"copy.copy of {type(x).__name__} at line {line}")
+
+    import copy as _copymod
+
+    w.reg(_copymod.copy, h_copy, "copy.copy (dict/list/immutable)")
     w.reg(contextlib.suppress, lambda ex, st, args, kw, line: iter([(st, ("suppress", args))]), "contextlib.suppress")
 
     # math
@@ -973,6 +990,16 @@ def install_datetime(w):
         yield st, r
 
     w.reg(DT.__dict__["utcfromtimestamp"], dt_utcfromtimestamp, "datetime.utcfromtimestamp")
+
+    def dt_now(ex, st, args, kw, line):
+        """datetime.now() without a tz: some valid naive datetime (the clock is not modelled)"""
+        if len(args) > 1 or kw:
+            raise Unsupported(f"datetime.now(tz) at line {line}")
+        r, c = fresh_datetime(ex.fresh, args[0], "now", tzinfo=None, fold=0)
+        st.assume(c)
+        yield st, r
+
+    w.reg(DT.__dict__["now"], dt_now, "datetime.now() (any valid naive datetime)")
 
     def dt_strptime(ex, st, args, kw, line):
         """only strptime(f"{year}-{ordinal}", "%Y-%j") with unpadded decimal ints.  CPython's _strptime: %Y is exactly
